@@ -54,13 +54,13 @@ CONTRACTS = [
              ensures_raise={"KeyFormatError": [("no-input", "input_calls('_choose_nameplate') == 0")]},
              note="the Automat input _choose_nameplate is treated as a boundary here; its rows are C14's business"),
     Contract("wormhole/_wordlist.py:PGPWordList.choose_words", props=[PROP], params={"length": "int"},
-             self_fields={}, requires=["length >= 0"], returns="str",
-             internal_ensures=[("count", "len(words) == length"),
+             self_fields={}, returns="str",
+             internal_ensures=[("count", "len(words) == ite(length >= 0, length, 0)"),
                       ("joined", 'result == join("-", words)'),
                       ("each-word-from-its-list",
                        "forall(lambda j: implies(0 <= j and j < length, words[j] == lower(ite(j % 2 == 0, "
                        "odd_word(draws[j]), even_word(draws[j]))) and len(draws[j]) == 1))"),
-                      ("one-draw-per-word", "len(draws) == length")],
+                      ("one-draw-per-word", "len(draws) == ite(length >= 0, length, 0)")],
              loops={0: {"header": "for i in range(length)", "retype": {"words": "seq[str]"},
                         "ghost_init": {"draws": 'empty_seq("bytes")'},
                         "ghost_update": {"draws": "draws + [iter_event('os.urandom')]"},
@@ -70,7 +70,6 @@ CONTRACTS = [
              note="draws is the ghost sequence of os.urandom(1) results: one fresh draw per word, used for that word"),
     Contract("wormhole/_allocator.py:Allocator.build_and_notify", props=[PROP], params={"nameplate": "str"},
              self_fields={"_wordlist": "obj[PGPWordList]", "_length": "int", "_C": "obj[ICode]"},
-             requires=["self._length >= 0"],
              ensures=[("code", "bcalls('allocated') == 1 and bcall_arg('allocated', 0, 0) == nameplate and "
                                "bcall_arg('allocated', 0, 1) == nameplate + '-' + call_result('choose_words')"),
                       ("nothing-else", "len(bcall_names()) == 1")]),
